@@ -209,11 +209,11 @@ def check_c15(c):
         what_tie="Go writes / C reads and C writes / Go reads (the C implementation of /repo/c built from the working tree), both judged against the source records; C-written files judged by the spec decoder; model reader = Go reader on C-written bytes",
         rule=TABLE_RULE + "Restricted to NUL-free names and strings (C strings). Stack directories: (a) 200 (thorough 4000) histories of the Go stack (Adds, multi-table Additions, "
              "compactions of arbitrary ranges, CompactAll, all write configurations) after which the C stack opens the directory and scans all refs and logs through its merged table: must equal what Go reads and what the model computes; "
-             "(b) 120 (thorough 2500) directories written by the C stack (3..14 adds with the C code's own auto-compaction, compact_all) which the Go stack opens and scans: must equal the view the model computes from the transactions. "
+             "(b) 120 (thorough 2500) directories written by the C stack (3..14 operations: adds with the C code's own auto-compaction, multi-table additions, compact_all with and without reflog expiry; name checking on, conflicting and illegal names included; a shadow Go stack tells which transactions are refused) which the Go stack opens and scans: the C stack must accept / refuse exactly the transactions the model does and the view must equal the one the model computes. "
              "non-trivial = both writers accepted the records and the table has > 200 bytes (tables); every stack directory",
         nontrivial=lambda cmd, args, impl: (impl.count("#ok#") == 1 and len(impl) > 600) if cmd == "ctable" else True,
         assumptions=["the C code is not modelled: its behaviour is compared, file by file and query by query, with the records written (differential / translation validation); the Coq side contributes the spec decoder (judge of the C-written files) and the model reader (what the Go reader must return on them)",
-                     "stack directories: the view (all refs, all logs) is compared, not the table layout (each implementation's compaction schedule is its own); name checking is off on both sides; C-written stacks keep one anchor ref so that the stack never becomes empty"],
+                     "stack directories: the view (all refs, all logs) is compared, not the table layout (each implementation's compaction schedule is its own); C-written stacks keep one anchor ref so that the stack never becomes empty"],
         level="translation_validation")
 
 
